@@ -90,15 +90,14 @@ Theorem C14_partition_distance_partition_only : forall n cx cy cx' cy', same_par
   snd (partition_distance log n cx cy) == snd (partition_distance log n cx' cy').
 Proof. exact (partition_distance_partition_only log log_proper). Qed.
 
-(* same partition up to renaming => VIn = 0, and MIn = 1 unless H(X) = 0 (single block: the code divides 0 by 0,
-   known finding partition_distance:trivial-partition) *)
-Theorem C14_partition_distance_same : forall n cx cy, same_part n cx cy ->
-  fst (partition_distance log n cx cy) == 0 /\
-  (~ Hx_of log n cx == 0 -> snd (partition_distance log n cx cy) == 1).
-Proof. exact (partition_distance_same log log_proper). Qed.
-
 Hypothesis log_incr : forall a b, 0 < a -> a < b -> log a < log b.
 Hypothesis log_1 : log 1 == 0.
+
+(* same partition up to renaming => VIn = 0 and MIn = 1; no side condition since fix b5787bf
+   (early return (0, 1) when n == 1 or both partitions have one block) *)
+Theorem C14_partition_distance_same : forall n cx cy, (0 < n)%nat -> same_part n cx cy ->
+  fst (partition_distance log n cx cy) == 0 /\ snd (partition_distance log n cx cy) == 1.
+Proof. exact (partition_distance_same log log_proper log_incr log_1). Qed.
 
 Theorem C14_VIn_nonneg : forall n cx cy, (1 < n)%nat -> 0 <= fst (partition_distance log n cx cy).
 Proof. exact (VIn_nonneg log log_proper log_incr log_1). Qed.
@@ -107,9 +106,15 @@ Theorem C14_VIn_zero_same : forall n cx cy, (1 < n)%nat ->
   fst (partition_distance log n cx cy) == 0 -> same_part n cx cy.
 Proof. exact (VIn_zero_same log log_proper log_incr log_1). Qed.
 
-Theorem C14_MIn_one_same : forall n cx cy, (1 < n)%nat -> ~ Hx_of log n cx + Hx_of log n cy == 0 ->
+Theorem C14_MIn_one_same : forall n cx cy, (1 < n)%nat ->
   snd (partition_distance log n cx cy) == 1 -> same_part n cx cy.
 Proof. exact (MIn_one_same log log_proper log_incr log_1). Qed.
+
+(* "zero VI and unit MI exactly when the partitions coincide up to renaming" *)
+Theorem C14_partition_distance_exactly_when : forall n cx cy, (1 < n)%nat ->
+  (fst (partition_distance log n cx cy) == 0 <-> same_part n cx cy) /\
+  (snd (partition_distance log n cx cy) == 1 <-> same_part n cx cy).
+Proof. exact (partition_distance_exactly_when log log_proper log_incr log_1). Qed.
 
 (* the range clause 0 <= VIn <= 1: the lower bound is C14_VIn_nonneg; the upper bound
    H(X|Y) + H(Y|X) <= log n needs concavity of log (Jensen on finite sums), not derivable from
@@ -159,6 +164,7 @@ Print Assumptions C14_partition_distance_same.
 Print Assumptions C14_VIn_nonneg.
 Print Assumptions C14_VIn_zero_same.
 Print Assumptions C14_MIn_one_same.
+Print Assumptions C14_partition_distance_exactly_when.
 Print Assumptions C14_VIn_range_partial.
 Print Assumptions C14_ci2ls_ls2ci_inverse.
 Print Assumptions C14_ci2ls_blocks.
